@@ -1074,6 +1074,7 @@ REF_KINDS = ["msg", "nested", "enum", "nested_enum"]
 REF_SITES = ["field", "repeated", "map", "oneof"]
 STYLE_NAMES = {
     "pascal": {"Target": "Target", "Inner": "Inner", "Color": "Color", "Kind": "Kind"},
+    "capitalized": {"Target": "Target", "Inner": "Inner", "Color": "Color", "Kind": "Kind"},
     "lower": {"Target": "target", "Inner": "inner", "Color": "color", "Kind": "kind"},
 }
 
@@ -1148,13 +1149,19 @@ def ref_schema(packages: List[str], edges: List[Tuple[str, str]], style: str = "
     cards = [(False, False), (False, True), (True, False), (True, True)]
     for s, dsts in by_src.items():
         i = idx[s]
-        holder = Message("Holder")
+        # one holder message per referenced package: betterproto builds class metadata in time
+        # quadratic in the number of fields, so a single 240-field holder would dominate the run;
+        # all holders (and therefore all import aliases) still coexist in ONE generated module
+        holders: List[Message] = []
         svc = Service("Svc")
         imports = []
-        num = 0
-        holder_ref = TypeRef("message", "", s, ("Holder",))
         for d in dsts:
             j = idx[d]
+            hname = "Holder%d" % j
+            holder = Message(hname)
+            holders.append(holder)
+            holder_ref = TypeRef("message", "", s, (hname,))
+            num = 0
             if "t%d.proto" % j not in imports:
                 imports.append("t%d.proto" % j)
             for kind in REF_KINDS:
@@ -1168,7 +1175,7 @@ def ref_schema(packages: List[str], edges: List[Tuple[str, str]], style: str = "
                               oneof=("pick%d" % j) if site == "oneof" else None)
                     holder.fields.append(f)
                     refs.append({"key": "%s|%s|%s|%s" % (s, d, kind, site), "src": s, "dst": d, "kind": kind, "site": site,
-                                 "src_module": module_of(s), "holder": "Holder", "number": num,
+                                 "src_module": module_of(s), "holder": hname, "number": num,
                                  "dst_module": module_of(d), "dst_flat": flat,
                                  "dst_kind": "message" if kind in ("msg", "nested") else "enum"})
             for k, kind in enumerate(("msg", "nested")):
@@ -1184,6 +1191,10 @@ def ref_schema(packages: List[str], edges: List[Tuple[str, str]], style: str = "
                                      "route": "/%sSvc/%s" % (s + "." if s else "", mname),
                                      "dst_module": module_of(d), "dst_flat": flat, "dst_kind": "message"})
         if with_wkt:
+            holder = Message("HolderW")
+            holders.append(holder)
+            holder_ref = TypeRef("message", "", s, ("HolderW",))
+            num = 0
             for wname, site in (("Empty", "field"), ("FieldMask", "repeated"), ("Value", "map"), ("Any", "oneof")):
                 num += 1
                 if WKT_FILE[wname] not in imports:
@@ -1193,7 +1204,7 @@ def ref_schema(packages: List[str], edges: List[Tuple[str, str]], style: str = "
                                            map_key="string" if site == "map" else None,
                                            oneof="wpick" if site == "oneof" else None))
                 refs.append({"key": "%s|<wkt>|%s|%s" % (s, wname, site), "src": s, "dst": "<wkt>", "kind": "wkt", "site": site,
-                             "src_module": module_of(s), "holder": "Holder", "number": num, "wkt": True,
+                             "src_module": module_of(s), "holder": "HolderW", "number": num, "wkt": True,
                              "dst_module": "betterproto.lib.google.protobuf", "dst_flat": wname, "dst_kind": "message"})
             for wname, site in (("Empty", "rpc_in"), ("Int32Value", "rpc_out"), ("Timestamp", "rpc_in")):
                 if WKT_FILE[wname] not in imports:
@@ -1205,5 +1216,5 @@ def ref_schema(packages: List[str], edges: List[Tuple[str, str]], style: str = "
                                  "src_module": module_of(s), "service": "Svc", "method": mname, "wkt": True,
                                  "route": "/%sSvc/%s" % (s + "." if s else "", mname),
                                  "dst_module": "betterproto.lib.google.protobuf", "dst_flat": wname, "dst_kind": "message"})
-        files.append(File(name="r%d.proto" % i, package=s, imports=imports, messages=[holder], services=[svc]))
+        files.append(File(name="r%d.proto" % i, package=s, imports=imports, messages=holders, services=[svc]))
     return Schema(files=files), refs, rpc_refs
